@@ -19,6 +19,7 @@ import ClipperVerif.Driver.C16
 import ClipperVerif.Driver.C03
 import ClipperVerif.Driver.C04
 import ClipperVerif.Driver.C12
+import ClipperVerif.Driver.AddPaths
 namespace Clipper.Driver
 open Clipper.Proto
 
@@ -43,7 +44,8 @@ def handlers : List (String → Option (P String)) := [
   C16.handle,
   C03.handle,
   C04.handle,
-  C12.handle
+  C12.handle,
+  AddPaths.handle
 ]
 
 def dispatch1 (cmd : String) : Option (P String) :=
